@@ -538,3 +538,26 @@ Section Proofs.
         apply (Hnot_special c' ws Ex). destruct Hc; subst; reflexivity.
   Qed.
 End Proofs.
+
+(* ---------- strconv.Unquote model: the escape-free case ---------- *)
+(* a quoted lexeme without backslash, quote or newline inside unquotes to its body *)
+Lemma unquote_plain body :
+  Forall (fun c => c <> 34 /\ c <> 92 /\ c <> 10) body ->
+  unquote (34 :: body ++ [34]) = Some body.
+Proof.
+  unfold unquote. induction 1 as [|c body [H34 [H92 H10]] _ IH].
+  - reflexivity.
+  - change ((c :: body) ++ [34]) with (c :: (body ++ [34])).
+    apply N.eqb_neq in H34, H92, H10.
+    cbn [unquote_body]. rewrite H34, H10, H92. cbn [negb]. rewrite IH. reflexivity.
+Qed.
+
+(* an unterminated body never unquotes *)
+Lemma unquote_unterminated body :
+  Forall (fun c => c <> 34 /\ c <> 92) body -> unquote (34 :: body) = None.
+Proof.
+  unfold unquote. induction 1 as [|c body [H34 H92] _ IH]; [reflexivity|].
+  apply N.eqb_neq in H34, H92.
+  cbn [unquote_body]. rewrite H34, H92. cbn [negb].
+  destruct (c =? 10); [reflexivity|]. rewrite IH. reflexivity.
+Qed.
